@@ -478,6 +478,80 @@ func reproduced(f *Finding, out string) bool {
 	return false
 }
 
+// validateSamples re-runs sampled passing paths natively on the inputs the solver found for
+// their path conditions: the native run must pass every assertion, must not find an
+// assumption false, and must print the vObserve values the symbolic run predicts.
 func validateSamples(spec *Spec, entry string, fs []*Finding, params map[string]int64) (int, string) {
-	return 0, ""
+	dir := filepath.Join(verifDir, "replays", "validate", spec.PkgName+"-"+entry)
+	os.RemoveAll(dir)
+	os.MkdirAll(dir, 0o755)
+	for i, f := range fs {
+		rec := map[string]interface{}{"inputs": f.Inputs, "choices": f.Choices, "uf": f.UFTables, "params": params}
+		b, _ := json.Marshal(rec)
+		os.WriteFile(filepath.Join(dir, fmt.Sprintf("rec%03d.json", i)), b, 0o644)
+	}
+	pkgDir := filepath.Join(repoDir, spec.Package)
+	repl := map[string]string{}
+	wr := func(virt, name, text string) {
+		p := filepath.Join(dir, name)
+		os.WriteFile(p, []byte(text), 0o644)
+		repl[filepath.Join(pkgDir, virt)] = p
+	}
+	pk := "package " + spec.PkgName
+	wr("zz_verif_rt_test.go", "rt_native.go", strings.ReplaceAll(readRT("rt_native.go.tmpl"), "package PKG", pk))
+	wr("zz_verif_common_test.go", "rt_common.go", strings.ReplaceAll(readRT("rt_common.go.tmpl"), "package PKG", pk))
+	for _, h := range spec.Harness {
+		hb, _ := os.ReadFile(filepath.Join(verifDir, h))
+		wr("zz_verif_h_"+strings.TrimSuffix(filepath.Base(h), ".go")+"_test.go", "harness_"+filepath.Base(h), string(hb))
+	}
+	wr("zz_verif_drv_test.go", "driver.go", fmt.Sprintf("%s\n\nimport \"testing\"\n\nfunc TestVerifValidate(t *testing.T) { vrtBatch(t, %q, %d, %s) }\n", pk, dir, len(fs), entry))
+	ob, _ := json.MarshalIndent(map[string]interface{}{"Replace": repl}, "", " ")
+	os.WriteFile(filepath.Join(dir, "overlay.json"), ob, 0o644)
+	cmd := exec.Command("go", "test", "-v", "-vet=off", "-count=1", "-overlay", filepath.Join(dir, "overlay.json"), "-run", "^TestVerifValidate$", "-timeout", "300s", ".")
+	cmd.Dir = pkgDir
+	cmd.Env = append(os.Environ(), "GOFLAGS=-mod=mod", "GOPROXY=off", "GOSUMDB=off", "GOTOOLCHAIN=local")
+	outb, _ := cmd.CombinedOutput()
+	out := string(outb)
+	os.WriteFile(filepath.Join(dir, "validate.out"), outb, 0o644)
+	// parse: lines "REC <i> PASS|FAIL ...|SKIP", "OBS ..." between "REC <i> BEGIN" and the verdict
+	got := map[int][]string{}
+	verdict := map[int]string{}
+	cur := -1
+	for _, line := range strings.Split(out, "\n") {
+		line = strings.TrimSpace(line)
+		var i int
+		var rest string
+		if n, _ := fmt.Sscanf(line, "REC %d %s", &i, &rest); n == 2 {
+			if rest == "BEGIN" {
+				cur = i
+			} else {
+				verdict[i] = strings.TrimPrefix(line, fmt.Sprintf("REC %d ", i))
+				cur = -1
+			}
+			continue
+		}
+		if cur >= 0 && strings.HasPrefix(line, "OBS ") {
+			got[cur] = append(got[cur], line)
+		}
+	}
+	okN := 0
+	for i, f := range fs {
+		v, ok := verdict[i]
+		if !ok {
+			return okN, fmt.Sprintf("native batch run produced no verdict for sampled path %d (see %s/validate.out)", i, dir)
+		}
+		if v != "PASS" {
+			return okN, fmt.Sprintf("sampled path %d passes symbolically but natively: %s (see %s)", i, v, dir)
+		}
+		if len(f.Observed) != len(got[i]) {
+			return okN, fmt.Sprintf("sampled path %d: %d observations predicted, %d seen natively", i, len(f.Observed), len(got[i]))
+		}
+		for k := range f.Observed {
+			if f.Observed[k] != got[i][k] {
+				return okN, fmt.Sprintf("sampled path %d: predicted %q, native %q", i, f.Observed[k], got[i][k])
+			}
+		}
+		okN++
+	}
+	return okN, ""
 }
